@@ -91,6 +91,14 @@ def c17(m, h, i, s):
             return
         v = int(s.toks[4])
         path = classify_path(h, i)
+        # whether an open against an existing position reduces or reverses it is decided by what the position is worth
+        # at spot (harness annotation, taken before the call), not by what the engine did
+        if s.verb() == "open" and "spot_notional" in s.notes and path in ("reduce", "reverse-flat", "reverse-reopen"):
+            N = int(s.toks[6]) * int(s.toks[7]) // I(s.pre, "e.dec")
+            expect = "reduce" if N < int(s.notes["spot_notional"]) else path
+            if expect == "reduce" and path != "reduce":
+                m.hit("engine-limit:reduce-taken-as-reversal", h, i)
+            path = expect
         dq = abs(I(s.obs, f"v{v}.q") - I(s.pre, f"v{v}.q"))
         db = abs(I(s.obs, f"v{v}.b") - I(s.pre, f"v{v}.b"))
         m.stats["checked"] += 1
